@@ -46,6 +46,12 @@ def check(ctx):
     info = c03.r03_1(ctx, irun)
     c03.r03_2(ctx, irun, info)
     c03.r03_3(ctx, irun, info)
+    from . import c16 as _c16
+    from .c19 import tag_loop as _tl, tag_regex_info as _ti
+
+    _pf, _loop = _tl(ctx, "R16.1")
+    _c16.r16_1(ctx, _pf, _loop, _ti(_pf, _loop, "R16.1"))  # optional fields survive: the parser accepts the tag grammar (shared with C16)
+    _c16.r16_2(ctx, _pf, _loop)
     ctx.not_decided.append("that the index itself lists the right offsets (C03) and that seek/readline return that record (pysam / text I/O contract)")
 
 
